@@ -1,12 +1,14 @@
 \* C01/C05 exhaustive check of the framing contract (Dev = {}: reference reader/writer = the code
 \* with patches C01-1, C01-2, C05-1).  All packet sequences <= MaxPkts over HB/CMD/PAY x flag x
-\* body length 0..MaxLen, every chunking incl. MaxStall empty reads.
+\* body length 0..MaxLen, every chunking incl. MaxStall empty reads.  Chunking = "msg": the WebSocket wrapper model
+\* (every partition into messages incl. empty ones; invariants WsOK).  MCFLAGS: {"none", "enc", "zpre"} for the stream
+\* transports; the quick-tier message-transport run uses {"none"} with longer bodies (flags are orthogonal to the wrapper).
 CONSTANTS
   Mode = "honest"
   MaxPkts = @@PKTS@@
   MaxLen = @@LEN@@
   BodyClasses = {"any"}
-  Flags = {"none", "enc", "zpre"}
+  Flags = @@MCFLAGS@@
   MaxFrames = 1
   Threads = {1}
   MaxStall = 1
@@ -14,6 +16,6 @@ CONSTANTS
   Dev = {}
   Emit = FALSE
 SPECIFICATION Spec
-INVARIANTS TypeOK C01 AllocBound MsgDrained ProgressPossible
+INVARIANTS TypeOK C01 AllocBound WsOK ProgressPossible
 PROPERTY Termination
 CHECK_DEADLOCK FALSE
